@@ -78,19 +78,24 @@ theorem cached_id (o : Obs) (f : Option Gk.Err) (h : Ok o) :
   | none => simp [genOf, hc]; rfl
   | some c => simp [genOf, hc, toGen, h.cachedId c hc]
 
+theorem cached_eq (o : Obs) (f : Option Gk.Err) (c : Gk.Task) (hc : o.hook.cached = some c) :
+    (genOf o f).cachedMin = toGen c := by simp [genOf, hc]
+
+theorem stale_eq (o : Obs) (f : Option Gk.Err) : (genOf o f).cacheStale = o.hook.stale := rfl
+
+/-- The three one-condition hooks are proved by splitting on every atomic condition (cache empty, stale, comparison,
+id equality), so that a rewrite of the Go condition into an equivalent Boolean form still checks. -/
 theorem tie_AddTask (o : Obs) (f : Option Gk.Err) (ctx : Ctx) (p : Gk.Param) (hf : f ≠ some .exhausted) (h : Ok o) :
     (genOf o f).AddTask ctx (toGenP p) = genOf (o.hookAdd p f) f := by
-  simp only [MutationHookTimer.AddTask, cached_id o f h, tie_update o f ctx hf, Obs.hookAdd, Obs.untrusted, h.fixed]
+  have hne : ((genOf o f).cachedMin.Id != "") = !((genOf o f).cachedMin.Id == "") := rfl
+  simp only [MutationHookTimer.AddTask, hne, cached_id o f h, stale_eq, tie_update o f ctx hf, Obs.hookAdd, Obs.untrusted,
+    h.fixed]
   cases hc : o.hook.cached with
   | none => simp
   | some c =>
-    have : (genOf o f).cachedMin = toGen c := by simp [genOf, hc]
-    simp only [this, tie_Param_ToTask, tie_Task_Less, Def.NeverExistentId, Repository.farFuture]
-    simp [genOf]
-    split <;> rfl
-
-theorem cached_eq (o : Obs) (f : Option Gk.Err) (c : Gk.Task) (hc : o.hook.cached = some c) :
-    (genOf o f).cachedMin = toGen c := by simp [genOf, hc]
+    simp only [cached_eq o f c hc, tie_Param_ToTask, tie_Task_Less, Def.NeverExistentId, Repository.farFuture]
+    by_cases hs : o.hook.stale = true <;>
+      by_cases hl : ((p.toTask "%%%%$$$$%%%%$$$$%%%%$$$$" farFuture).lessHook c) = true <;> simp [hs, hl]
 
 theorem less_aux (P : Def.TaskUpdateParam) (p' : Gk.Param) (c : Gk.Task) (hP : P = toGenP p') :
     (P.ToTask Def.NeverExistentId Go.time_Zero).Less (toGen c) =
@@ -143,29 +148,33 @@ theorem tie_UpdateById (o : Obs) (f : Option Gk.Err) (ctx : Ctx) (id : String) (
 
 theorem tie_Cancel (o : Obs) (f : Option Gk.Err) (ctx : Ctx) (id : String) (hf : f ≠ some .exhausted) (h : Ok o) :
     (genOf o f).Cancel ctx id = genOf (o.hookCancel id f) f := by
-  simp only [MutationHookTimer.Cancel, cached_id o f h, tie_update o f ctx hf, Obs.hookCancel, Obs.untrusted, h.fixed]
+  have hne : ((genOf o f).cachedMin.Id != "") = !((genOf o f).cachedMin.Id == "") := rfl
+  simp only [MutationHookTimer.Cancel, hne, cached_id o f h, stale_eq, tie_update o f ctx hf, Obs.hookCancel, Obs.untrusted,
+    h.fixed]
   cases hc : o.hook.cached with
   | none => simp
   | some c =>
-    simp only [cached_eq o f c hc]
-    simp [genOf, toGen]
-    split <;> rfl
+    simp only [cached_eq o f c hc, toGen_Id]
+    have hb : (id == c.id) = (c.id == id) := by
+      rw [Bool.eq_iff_iff]; simp only [beq_iff_eq]; exact eq_comm
+    by_cases hs : o.hook.stale = true <;> by_cases hi : (c.id == id) = true <;> simp [hs, hi, hb]
 
 theorem tie_MarkAsDispatched (o : Obs) (f : Option Gk.Err) (ctx : Ctx) (id : String) (hf : f ≠ some .exhausted)
     (h : Ok o) (hid : id ≠ "") :
     (genOf o f).MarkAsDispatched ctx id = genOf (o.hookDispatch id f) f := by
   have hne : ((genOf o f).cachedMin.Id != "") = !((genOf o f).cachedMin.Id == "") := rfl
-  simp only [MutationHookTimer.MarkAsDispatched, hne, cached_id o f h, tie_update o f ctx hf, Obs.hookDispatch, h.fixed]
+  simp only [MutationHookTimer.MarkAsDispatched, hne, cached_id o f h, stale_eq, tie_update o f ctx hf, Obs.hookDispatch,
+    h.fixed]
   cases hc : o.hook.cached with
   | none =>
     have : (genOf o f).cachedMin.Id = "" := by simp [genOf, hc]; rfl
-    simp [this, hid]
+    have hid' : ¬ ("" = id) := fun e => hid e.symm
+    simp [this, hid, hid']
   | some c =>
-    simp only [cached_eq o f c hc]
+    simp only [cached_eq o f c hc, toGen_Id]
     have hb : (id == c.id) = (c.id == id) := by
       rw [Bool.eq_iff_iff]; simp only [beq_iff_eq]; exact eq_comm
-    simp [genOf, toGen, hb]
-    split <;> rfl
+    by_cases hs : o.hook.stale = true <;> by_cases hi : (c.id == id) = true <;> simp [hs, hi, hb]
 
 theorem tie_StartTimer (o : Obs) (f : Option Gk.Err) (ctx : Ctx) (hf : f ≠ some .exhausted) :
     (genOf o f).StartTimer ctx = genOf (o.startTimer f) f := by
